@@ -33,7 +33,13 @@ T = "http://www.w3.org/1999/02/22-rdf-syntax-ns#type"
 XSD = "http://www.w3.org/2001/XMLSchema#"
 
 KINDS_MAIN = ["nt_classes", "nt_all_ex", "nt_file", "nt_or", "tsv", "ttl_iter", "sm_focus", "sm_sparql", "sm_mixed",
-              "prefixes3"]
+              "prefixes3", "mix_node", "mix_focus", "mix_sparql"]
+# mix_*: a shape map next to all_classes_mode=True -- MixedInstanceTracker merges the dictionary of the shape-map
+# tracker with the class tracker's (_integrate_dicts); absolute shape labels, so SHACL is compared as well
+# pfx_<b0b1b2b3>: which of the four default prefixes of the shapes namespace the user's namespaces_dict already binds
+# (all 16 subsets: every k in 0..4 and, for k = 3, each choice of the free one)
+PRIORITY = ["", "weso-s", "shapes", "w-shapes"]
+KINDS_PREFIX = ["pfx_" + "".join(b) for b in itertools.product("01", repeat=4)]
 KINDS_RDFLIB = ["rdflib_obj", "ttl_parsed", "xml_parsed"]
 KINDS_ENDPOINT = ["endpoint_classes", "endpoint_all", "endpoint_nocache", "endpoint_sm"]
 KINDS_RANDOM_ALLOWED = ["prefixes4"]
@@ -90,28 +96,73 @@ def random_graph(rnd):
     return {"nt": "\n".join(L) + "\n", "classes": classes, "preds": [preds[0]]}
 
 
+WORDS = ["gadget", "widget", "sprocket", "flange", "gizmo", "doohickey", "thing", "part", "item", "unit", "piece", "bit"]
+PROPS = ["colour", "weight", "height", "width", "depth", "vendor", "price", "mass", "size", "shape", "origin", "grade",
+         "batch", "model", "serial", "owner", "state", "level", "range", "power"]
+
+
+def tie_graph(rnd):
+    """every instance of a class uses properties of its own, so that ALL the constraints of a shape tie at 1/n:
+    their order in ShExC is the order in which the instances sit in the instance dictionary.  An untyped hub
+    (a natural shape-map target) links to some of them."""
+    ncls = rnd.randint(1, 3)
+    words = rnd.sample(WORDS, ncls)
+    classes = ["http://ex.org/%s" % w.capitalize() for w in words]
+    props = rnd.sample(PROPS, len(PROPS))
+    hub = "http://ex.org/hub"
+    blocks = [['<%s> <http://ex.org/label> "the hub" .' % hub]]
+    nodes = [hub]
+    for w, c in zip(words, classes):
+        for i in range(rnd.randint(3, 7)):
+            n = "http://ex.org/%s%d" % (w, rnd.randrange(1000))
+            if n in nodes:
+                continue
+            nodes.append(n)
+            b = ["<%s> <%s> <%s> ." % (n, T, c)]
+            for _ in range(rnd.randint(1, 2)):
+                if not props:
+                    break
+                pr = props.pop()
+                b.append('<%s> <http://ex.org/%s> "v%d" .' % (n, pr, rnd.randrange(10)) if rnd.random() < 0.7 else
+                         '<%s> <http://ex.org/%s> "%d"^^<%sinteger> .' % (n, pr, rnd.randrange(10), XSD))
+            if rnd.random() < 0.4:
+                b.append("<%s> <http://ex.org/part> <%s> ." % (hub, n))
+            blocks.append(b)
+    L = [l for b in blocks for l in b]
+    return {"nt": "\n".join(L) + "\n", "classes": classes, "preds": ["http://ex.org/part" if any(
+        "/part>" in l for l in L) else "http://ex.org/label"], "nodes": nodes}
+
+
 def make_cases(tier, rnd):
     import rdflib
     os.makedirs(D, exist_ok=True)
     graphs = {"g0": fixed_graph()}
     for i in range(1, (20 if tier == "thorough" else 5) + 1):
         graphs["g%d" % i] = random_graph(rnd)
+    for i in range(1, (8 if tier == "thorough" else 3) + 1):
+        graphs["t%d" % i] = tie_graph(rnd)
     for name, g in graphs.items():
         with open(os.path.join(D, name + ".nt"), "w") as f:
             f.write(g["nt"])
         rdflib.Graph().parse(data=g["nt"], format="nt").serialize(destination=os.path.join(D, name + ".xml"), format="xml")
     cases = []
     for gname in sorted(graphs):
-        for kind in KINDS_MAIN + KINDS_RDFLIB + KINDS_ENDPOINT + KINDS_RANDOM_ALLOWED:
+        # the tie graphs skip the (slow) fake-endpoint kinds: 4 x 2 extractions through rdflib's SPARQL engine each
+        kinds = KINDS_MAIN + KINDS_RDFLIB + ([] if gname.startswith("t") else KINDS_ENDPOINT + KINDS_RANDOM_ALLOWED)
+        for kind in kinds:
             for fmt in ("ShEx", "Shacl"):
                 if fmt == "Shacl" and kind in SHEXC_ONLY:
                     continue
                 cases.append({"id": "%s/%s/%s" % (gname, kind, fmt), "graph": gname, "kind": kind, "fmt": fmt})
+    for gname, fmts in (("g0", ("ShEx", "Shacl")), ("t1", ("ShEx",))):
+        for kind in KINDS_PREFIX:
+            for fmt in fmts:
+                cases.append({"id": "%s/%s/%s" % (gname, kind, fmt), "graph": gname, "kind": kind, "fmt": fmt})
     return graphs, cases
 
 
-def run_seeds(spec_path, seeds, text=False, timeout=900):
-    """one fresh interpreter per seed, NCPU at a time"""
+def run_seeds(spec_path, seeds, text=False, timeout=900, infos=None):
+    """one fresh interpreter per seed, NCPU at a time; infos (a dict) receives the workers' side observations"""
     worker = os.path.join(os.path.dirname(os.path.abspath(__file__)), "c19_worker.py")
     results = {}
     pending = list(seeds)
@@ -129,6 +180,8 @@ def run_seeds(spec_path, seeds, text=False, timeout=900):
             out, _ = p.communicate(timeout=timeout)
             last = out.decode("utf-8", "replace").strip().split("\n")[-1]
             results[s] = json.loads(last)["digests"]
+            if infos is not None:
+                infos[s] = json.loads(last).get("info", {})
         except Exception as e:  # noqa
             p.kill()
             results[s] = {"__worker__": "FAILED %s" % e}
@@ -265,6 +318,36 @@ def corr_targets(mb, rnd, n):
     return rows, model, bad, perm_bad
 
 
+def corr_integrate(mb, rnd, n):
+    """MixedInstanceTracker._integrate_dicts on random pairs of dictionaries (shared and unshared instances in
+    unrelated orders, class names that collide with labels of the reference dictionary), compared with
+    Model/Selectors.integrate_dicts INCLUDING the order of the keys and of each class list"""
+    from shexer.core.instances.mix.mixed_instance_tracker import MixedInstanceTracker
+    from shexer.core.instances.instance_tracker import InstanceTracker
+    import shexer.core.instances.abstract_instance_tracker as AIT
+    rows, outs = [], []
+    keep = AIT._TRACKERS_DISAM_COUNT
+    n_new_keys = 0
+    for i in range(n):
+        insts = ["http://e/%s%d" % (rnd.choice("abnxyz"), j) for j in range(rnd.randint(1, 8))]
+        labels = ["<S%d>" % j for j in range(3)] + ["http://e/C0", "http://e/C1"]
+        classes = ["http://e/C%d" % j for j in range(4)] + ["<S0>"]
+        ref = {k: rnd.sample(labels, rnd.randint(1, 2)) for k in rnd.sample(insts, rnd.randint(0, len(insts)))}
+        new = {k: rnd.sample(classes, rnd.randint(0, 3)) for k in rnd.sample(insts, rnd.randint(0, len(insts)))}
+        n_new_keys += sum(1 for k in new if k not in ref)
+        n0 = rnd.randint(0, 12)
+        rows.append([str(n0)] + [RS.join(["R", k] + v) for k, v in ref.items()] + [RS.join(["N", k] + v) for k, v in new.items()])
+        AIT._TRACKERS_DISAM_COUNT = n0
+        d = {k: list(v) for k, v in ref.items()}
+        object.__new__(MixedInstanceTracker)._integrate_dicts(reference_dict=d, new_dict={k: list(v) for k, v in new.items()},
+                                                              new_tracker=object.__new__(InstanceTracker))
+        outs.append([RS.join([k] + v) for k, v in d.items()] + [str(AIT._TRACKERS_DISAM_COUNT)])
+    AIT._TRACKERS_DISAM_COUNT = keep
+    model = mb.call("c19_integrate", rows)
+    bad = [(r, o, list(m)) for r, o, m in zip(rows, outs, model) if o != list(m)]
+    return rows, model, bad, n_new_keys
+
+
 # --------------------------------------------------------------------------
 
 def run(tier, seed, replay=None):
@@ -302,7 +385,8 @@ def run(tier, seed, replay=None):
     spec_path = os.path.join(D, "cases_%d.json" % os.getpid())
     with open(spec_path, "w") as f:
         json.dump({"graphs": graphs, "cases": cases}, f)
-    results = run_seeds(spec_path, seeds)
+    infos = {}
+    results = run_seeds(spec_path, seeds, infos=infos)
     worker_fail = [s for s, r in results.items() if "__worker__" in r]
     if worker_fail:
         run.internal_errors.append("C19 worker interpreters failed for seeds %r: %s" % (
@@ -332,6 +416,26 @@ def run(tier, seed, replay=None):
             else:
                 differing.append((c, by))
 
+    # ---- (2b) the prefix of the shapes namespace: the FIRST default prefix the user has not bound (what
+    # C19_prefix_oracle_independent says of the model); a random one only when all four are bound
+    wrong_prefix = []
+    n_prefix_checked = 0
+    prefix_seen = {}
+    for c in cases:
+        if not c["kind"].startswith("pfx_") or c["fmt"] != "ShEx":
+            continue
+        taken = [PRIORITY[i] for i in range(4) if c["kind"][4 + i] == "1"]
+        free = [q for q in PRIORITY if q not in taken]
+        for s in seeds:
+            got = infos.get(s, {}).get(c["id"], {}).get("shape_prefix", "MISSING")
+            if got == "MISSING":
+                continue            # the extraction failed in that interpreter: reported through `errors`
+            n_prefix_checked += 1
+            prefix_seen.setdefault(c["kind"], set()).add(got)
+            ok = (got == free[0]) if free else (got is not None and got not in taken)
+            if not ok:
+                wrong_prefix.append((c, s, got, free[0] if free else "any prefix the user has not bound"))
+
     # ---- (3) modelled sites against the real functions
     corr_bad = []
     corr_n = 0
@@ -353,6 +457,11 @@ def run(tier, seed, replay=None):
         corr_bad += [("SGraph.yield_p_o_triples_of_target_nodes", b) for b in bad]
         corr_bad += [("SGraph.yield_p_o_triples_of_target_nodes: multiset depends on the order", b) for b in pbad]
         vm_cases.append(("c19_targets", rows[:40], model[:40]))
+        rows, model, bad, n_new_keys = corr_integrate(mb, rnd, n * 3)
+        corr_n += len(rows)
+        corr_bad += [("MixedInstanceTracker._integrate_dicts (entries of the merged dictionary, in order)", b) for b in bad]
+        vm_cases.append(("c19_integrate", rows[:40], model[:40]))
+        run.coverage["site_correspondence_integrate_dicts"] = {"cases": len(rows), "keys_only_in_second_dictionary": n_new_keys}
         vm_n, mism, log = core.vm_crosscheck(vm_cases, "c19", per_file=1)
         if mism:
             run.internal_errors.append("extracted binary and vm_compute disagree (C19): %s %s" % (mism[:5], log[-300:]))
@@ -394,10 +503,15 @@ def run(tier, seed, replay=None):
                       {"kind": c["kind"], "fmt": c["fmt"], "graph": graphs[c["graph"]],
                        "seeds": [two[0][1][0], two[1][1][0]], "digests": {d: ss[:4] for d, ss in by.items()},
                        "new_oracle_sites": new_sites[:5]})
+    for c, s, got, want in wrong_prefix[:3]:
+        run.violation("the prefix bound to the shapes namespace is %r, expected %r (the first default prefix that the "
+                      "namespaces_dict leaves free)" % (got, want),
+                      {"kind": c["kind"], "fmt": c["fmt"], "graph": graphs[c["graph"]], "seeds": [s],
+                       "namespaces_dict_prefixes": [PRIORITY[i] for i in range(4) if c["kind"][4 + i] == "1"]})
     for c, e in errors[:3]:
         run.violation("extraction failed in a fresh interpreter", {"kind": c["kind"], "fmt": c["fmt"],
                                                                    "graph": graphs[c["graph"]], "error": e})
-    if not differing and not errors:
+    if not differing and not errors and not wrong_prefix:
         if new_sites:
             run.violation("the list of oracle sites no longer matches the source (new nondeterminism site)",
                           {"broken": "tie corpus/C19/sites.json <-> AST scan of shexer/ (theorems of Props/C19.v quantify "
@@ -425,6 +539,8 @@ def run(tier, seed, replay=None):
         "cases_in_known_finding_territory": len(cases) - len(main_cases),
         "known_finding_hits": known_hits,
         "allowed_random_prefix_cases_differing": allowed_random,
+        "shapes_prefix_checked": n_prefix_checked,
+        "shapes_prefix_by_bound_defaults": {k: sorted(map(str, v))[:6] for k, v in sorted(prefix_seen.items())},
         "oracle_sites_scanned": len(cur_sites), "new_oracle_sites": new_sites, "vanished_oracle_sites": gone_sites,
         "site_correspondence_cases": corr_n,
         "disagreements_model_vs_impl": len(corr_bad),
